@@ -353,3 +353,31 @@ M("C19", "pymbolic/mapper/evaluator.py", """                next_exp = rev_data[
                 next_exp = 0""", """                next_exp = rev_data[i+1][0]
             else:
                 next_exp = rev_data[0][0]*0+ (1 if exp > 2 else 0)""", "Horner wrong exponent gap for lowest term")
+
+M("C17", PR, """            return {attr_tuple}
+
+        cls.__getstate__ = {cls.__name__}_getstate""", """            return self.__dict__
+
+        cls.__getstate__ = {cls.__name__}_getstate""", "__getstate__ returns __dict__ (incl. cached hash)",
+  also=[(PR, """            for name, value in zip({fld_name_tuple}, state):
+                object.__setattr__(self, name, value)
+
+        cls.__setstate__ = {cls.__name__}_setstate""", """            for name, value in (state.items() if isinstance(state, dict) else zip({fld_name_tuple}, state)):
+                object.__setattr__(self, name, value)
+
+        cls.__setstate__ = {cls.__name__}_setstate""")])
+M("C17", "pymbolic/mapper/persistent_hash.py", """        self.key_hash.update(expr.name.encode("utf8"))""",
+  """        self.key_hash.update(str(hash(expr.name)).encode("utf8"))""", "digest uses hash() of the name")
+M("C17", "pymbolic/compiler.py", """    def __setstate__(self, state):
+        self._compile(*state)""", """    def __setstate__(self, state):
+        self._compile(state[0], [])""", "unpickled compiled expression forgets the listed variables")
+M("C17", PR, """    def __getstate__(self) -> tuple[Any]:
+        return self.__getinitargs__()""", """    def __getstate__(self) -> tuple[Any]:
+        return (*self.__getinitargs__(), getattr(self, "_hash_value", None))""",
+  "legacy state carries the cached hash",
+  also=[(PR, """        assert len(self.init_arg_names) == len(state), type(self)
+        for name, value in zip(self.init_arg_names, state):
+            object.__setattr__(self, name, value)""", """        for name, value in zip(self.init_arg_names, state):
+            object.__setattr__(self, name, value)
+        if state[-1] is not None:
+            object.__setattr__(self, "_hash_value", state[-1])""")])
